@@ -22,6 +22,9 @@ type KnownFinding struct {
 	What       string `json:"what"`
 }
 
+// loadKnown reads /verif/known_findings.txt. Lines:
+//   known: property=<id> obligation=<obligation name> <what fails>
+//   fixed: property=<id> <commit> <what failed>          (suppresses nothing)
 func loadKnown(path string) ([]KnownFinding, error) {
 	data, err := os.ReadFile(path)
 	if err != nil {
@@ -37,8 +40,30 @@ func loadKnown(path string) ([]KnownFinding, error) {
 			continue
 		}
 		var k KnownFinding
-		if err := json.Unmarshal([]byte(line), &k); err != nil {
-			return nil, fmt.Errorf("%s: %v", path, err)
+		switch {
+		case strings.HasPrefix(line, "known:"):
+			k.Status = "known"
+			rest := strings.Fields(strings.TrimPrefix(line, "known:"))
+			var what []string
+			for _, f := range rest {
+				switch {
+				case strings.HasPrefix(f, "property="):
+					k.Property = strings.TrimPrefix(f, "property=")
+				case strings.HasPrefix(f, "obligation="):
+					k.Obligation = strings.TrimPrefix(f, "obligation=")
+				default:
+					what = append(what, f)
+				}
+			}
+			k.What = strings.Join(what, " ")
+			if k.Property == "" || k.Obligation == "" {
+				return nil, fmt.Errorf("%s: malformed known finding: %s", path, line)
+			}
+		case strings.HasPrefix(line, "fixed:"):
+			k.Status = "fixed"
+			k.What = strings.TrimSpace(strings.TrimPrefix(line, "fixed:"))
+		default:
+			return nil, fmt.Errorf("%s: malformed line: %s", path, line)
 		}
 		out = append(out, k)
 	}
@@ -197,7 +222,7 @@ func cmdCheck(args []string) int {
 	}
 	wg.Wait()
 
-	known, err := loadKnown(filepath.Join(*verifDir, "known_findings.jsonl"))
+	known, err := loadKnown(filepath.Join(*verifDir, "known_findings.txt"))
 	if err != nil {
 		fmt.Fprintln(os.Stderr, "BROKEN:", err)
 		return 2
